@@ -1,6 +1,7 @@
 //! Independent oracles. Nothing in this module calls into tonic.
 pub mod b64;
 pub mod comp;
+pub mod fqn;
 pub mod pct;
 pub mod tables;
 pub mod timeout;
